@@ -1255,6 +1255,33 @@ def run(tier, replay=None):
                        'rejected with a type error, whatever the order of the rules'})
         break
 
+  # --- closed records of different widths forced on one column, by two facts of one predicate or through a chain:
+  #     two different ground types, so every order of the statements must be rejected (part b)
+  stats['width_family_orders'] = 0
+  for inst in range(4 if tier == 'quick' else 40):
+    wide, narrow = fam_r.choice([('{a: 1, b: 2}', '{a: 1}'), ('{a: "s", b: 2, c: true}', '{a: "t", c: false}'),
+                                 ('[{a: 1, b: 2}]', '[{a: 1}]'), ('{r: {a: 1, b: 2}}', '{r: {a: 1}}')])
+    depth = fam_r.choice([0, 0, 1, 2])
+    first, last = (wide, narrow) if fam_r.random() < 0.5 else (narrow, wide)
+    names = ['Wa%d' % i for i in range(depth + 1)]
+    stmts = ['%s(%s);' % (names[0], first)]
+    for i in range(depth):
+      stmts.append('%s(x) :- %s(x);' % (names[i], names[i + 1]))
+    stmts.append('%s(%s);' % (names[depth], last))
+    orders = list(itertools.permutations(stmts))
+    if len(orders) > 24:
+      orders = fam_r.sample(orders, 24)
+    for order in orders:
+      text = HEADER + '\n'.join(order) + '\n'
+      fc = full_check(text, [names[0]], compile_preds=False)
+      stats['width_family_orders'] += 1
+      if fc['status'] != 'TypeError':
+        report('width-clash:%s' % ('accepted' if fc['status'] == 'ok' else fc['status']),
+               {'kind': 'reject', 'text': text, 'observed': fc,
+                'law': '(b) a column forced to two closed record types with different fields is rejected with a type '
+                       'error, whatever the order of the statements'})
+        break
+
   # --- a clash between an outer variable and its use inside the k-th combine of a rule: rejected whatever
   #     the order of the conjuncts and whichever combine holds the clash (part b)
   stats['combine_clash_orders'] = 0
